@@ -89,6 +89,10 @@ impl<F: FixedChannelRegion> FixedChannelPlan<F> {
 }
 
 pub(crate) trait FixedChannelRegion: ChannelRegion {
+    /// Data rate of a Join-Request on a 125 kHz channel (0..=63)
+    const JOIN_DR_125KHZ: DR;
+    /// Data rate of a Join-Request on a 500 kHz channel (64..=71)
+    const JOIN_DR_500KHZ: DR;
     fn uplink_channels() -> &'static [u32; 72];
     fn downlink_channels() -> &'static [u32; 8];
     fn get_rx_datarate(tx_dr: DR, rx1_dr_offset: u8, window: &Window) -> DR;
@@ -187,9 +191,9 @@ impl<F: FixedChannelRegion> RegionHandler for FixedChannelPlan<F> {
             Frame::Join => {
                 let channel = self.join_channels.get_next_channel(rng);
                 let dr = if channel < 64 {
-                    DR::_0
+                    F::JOIN_DR_125KHZ
                 } else {
-                    DR::_4
+                    F::JOIN_DR_500KHZ
                 };
                 (dr, channel)
             }
@@ -201,9 +205,9 @@ impl<F: FixedChannelRegion> RegionHandler for FixedChannelPlan<F> {
                 let biased = if self.join_channels.has_bias_and_not_exhausted() {
                     let channel = self.join_channels.get_next_channel(rng);
                     let dr = if channel < 64 {
-                        DR::_0
+                        F::JOIN_DR_125KHZ
                     } else {
-                        DR::_4
+                        F::JOIN_DR_500KHZ
                     };
                     Some((dr, channel))
                 // Alternatively, we will ask JoinChannel logic to determine a channel from the
